@@ -348,16 +348,19 @@ impl<'a> ToTokens for WriteWithFn<'a> {
                 }
             }
             BodyFields::StdBody(fields) => {
-                let num_slots = compute_num_slots(root, fields, false);
-
-                let (body_kind, statements) =
+                let (num_slots, body_kind, statements) =
                     if fields_model.body_kind == CompoundTypeKind::Labelled {
                         (
+                            compute_num_slots(root, fields, false),
                             quote!(#root::write::RecordBodyKind::MapLike),
                             Either::Left(fields.iter().map(|f| write_slot_ref(root, f))),
                         )
                     } else {
+                        // Every field of an ordinal body is written (absent optional fields
+                        // as extant, to keep the positions of the others) so all are counted.
+                        let num_fields = fields.len();
                         (
+                            quote!(let num_slots: usize = #num_fields;),
                             quote!(#root::write::RecordBodyKind::ArrayLike),
                             Either::Right(fields.iter().map(|f| write_value_ref(f))),
                         )
@@ -470,16 +473,19 @@ impl<'a> ToTokens for WriteIntoFn<'a> {
                 }
             }
             BodyFields::StdBody(fields) => {
-                let num_slots = compute_num_slots(root, fields, true);
-
-                let (body_kind, statements) =
+                let (num_slots, body_kind, statements) =
                     if fields_model.body_kind == CompoundTypeKind::Labelled {
                         (
+                            compute_num_slots(root, fields, true),
                             quote!(#root::write::RecordBodyKind::MapLike),
                             Either::Left(fields.iter().map(|f| write_slot_into(root, f))),
                         )
                     } else {
+                        // Every field of an ordinal body is written (absent optional fields
+                        // as extant, to keep the positions of the others) so all are counted.
+                        let num_fields = fields.len();
                         (
+                            quote!(let num_slots: usize = #num_fields;),
                             quote!(#root::write::RecordBodyKind::ArrayLike),
                             Either::Right(fields.iter().map(|f| write_value_into(f))),
                         )
